@@ -26,7 +26,7 @@ ID = 'C16'
 CASE_TYPE = 'C16.case'
 EXTRA_IMPORTS = 'From PJ Require Import Model.Spec.\n'
 RULE = ('method sets of 1..3 (quick) / 1..4 (thorough) methods drawn from a pool of functions with annotated scalar / container / model / '
-        'optional parameter and return types (incl. None and missing) and docstrings with and without params / raises sections; '
+        'optional parameter and return types (incl. None and missing) and docstrings with and without params / raises sections (reST, and numpy style with description-less entries); the same method name may be exposed by different functions at different endpoints; '
         'annotation combinations: errors (own list, ONE list object shared between methods, none), tags, summary, '
         'description, deprecated, component_name_prefix; extractor stacks {pydantic, pydantic+docstring, docstring+pydantic}; endpoint '
         'prefixes (OpenAPI); 1..3 repeated generations on the same specification object; OpenAPI 3.0.3, 3.1.0 and OpenRPC. Each document '
@@ -35,7 +35,7 @@ EXHAUSTIVE = {'quick': False, 'thorough': False}
 TRUSTED_BASE = ['pydantic.model_json_schema and docstring_parser (the schema extractors): which components a method needs and which errors a '
                 'docstring names are taken from the extractors themselves',
                 'jsonschema + the meta-schemas under tests/server/resources (validity is a test, not a theorem)']
-KNOWN_CLASSES = {'F18_oas30_meta_schema': 1}
+KNOWN_CLASSES = {'F18_oas30_meta_schema': 1, 'F20_same_name_component_collision': 2}
 ASSUMPTIONS = ['OpenRPC describes the methods of the main endpoint only (the format has no endpoint notion); error classes used have codes that '
                'occur nowhere else in the documents']
 
@@ -79,9 +79,14 @@ class Item(pydantic.BaseModel):
 SIGS = [
     ('a: int, b: str = "x"', 'int'), ('items: List[int]', 'List[str]'), ('item: Item', 'Item'), ('x: Optional[int] = None', 'None'),
     ('flag: bool, *, k: float = 0.5', None), ('', 'Dict[str, int]'), ('d: Dict[str, Any]', 'Optional[Item]'),
+    ('age: int, name: str = "x"', 'int'),
 ]
+NUMPY_SIG = 7
 DOCS = [None, 'Plain summary.', 'Summary line.\n\n    Long description.\n\n    :param a: the a\n    :returns: something',
-        'Doc with raises.\n\n    :raises E2: second error', 'Doc.\n\n    :raises E3: third\n    :raises E4: fourth\n    :deprecated: 1.0 old']
+        'Doc with raises.\n\n    :raises E2: second error', 'Doc.\n\n    :raises E3: third\n    :raises E4: fourth\n    :deprecated: 1.0 old',
+        # numpy style, entries WITHOUT description text (the extractor leaves its 'unset' marker there for the generator to drop)
+        'Summary.\n\n    Parameters\n    ----------\n    age : int\n    name : str\n        The name.\n\n    Returns\n    -------\n    int']
+NUMPY_DOC = 5
 
 
 def make_fn(name, sig_i, doc_i):
@@ -108,15 +113,25 @@ def generate(seed, tier):
         k = rnd.randint(1, 3 if tier == 'quick' else 4)
         shared_used = rnd.random() < 0.5
         ms = []
+        kind = rnd.choice(['3.0.3', '3.1.0', 'rpc'])
+        taken = set()
         for i in range(k):
-            m = {'name': 'm%d' % i, 'sig': rnd.randrange(len(SIGS)), 'doc': rnd.randrange(len(DOCS)),
+            endpoint = rnd.choice(['', '', '/v2'])
+            # the same method name may be exposed (by different functions) at different endpoints
+            name = rnd.choice(['m%d' % i, 'get', 'get'])
+            if (name, '' if kind == 'rpc' else endpoint) in taken:
+                name = 'm%d' % i
+            taken.add((name, '' if kind == 'rpc' else endpoint))
+            m = {'name': name, 'sig': rnd.randrange(NUMPY_SIG), 'doc': rnd.randrange(NUMPY_DOC),
                  'errors': rnd.choice(['shared', 'shared', 'own', None] if shared_used else ['own', None]),
                  'own': rnd.sample(['E1', 'E2', 'E3', 'E4'], rnd.randint(0, 2)),
                  'prefix': rnd.choice([None, None, 'P%d_' % i, '']), 'tags': rnd.choice([None, ['t1'], ['t1', 't2']]),
                  'summary': rnd.choice([None, 'S']), 'description': rnd.choice([None, 'D']), 'deprecated': rnd.choice([None, True]),
-                 'endpoint': rnd.choice(['', '', '/v2'])}
+                 'endpoint': endpoint}
+            if kind != 'rpc' and rnd.random() < 0.15:
+                m['sig'], m['doc'] = NUMPY_SIG, NUMPY_DOC
             ms.append(m)
-        cases.append({'kind': rnd.choice(['3.0.3', '3.1.0', 'rpc']), 'methods': ms, 'shared': rnd.sample(['E1', 'E2', 'E3'], rnd.randint(1, 2)),
+        cases.append({'kind': kind, 'methods': ms, 'shared': rnd.sample(['E1', 'E2', 'E3'], rnd.randint(1, 2)),
                       'stack': rnd.choice(['pyd', 'pyd+doc', 'doc+pyd']), 'global_prefix': rnd.choice(['', '', 'G_']),
                       'gens': rnd.choice([1, 2, 3]), 'view': rnd.random() < 0.2})
     return cases
@@ -188,6 +203,22 @@ def request_method_name(entry, comps, rpc):
         return ''
 
 
+def documented_params(entry, comps, rpc):
+    """The parameter names an entry documents (None when the request schema has no recognisable parameter object)."""
+    if rpc:
+        return sorted(p.get('name', '?') for p in entry.get('params', []))
+    try:
+        sch = entry['post']['requestBody']['content']['application/json']['schema']
+        if '$ref' in sch:
+            sch = comps[sch['$ref'].rsplit('/', 1)[-1]]
+        ps = sch['properties']['params']
+        if '$ref' in ps:
+            ps = comps[ps['$ref'].rsplit('/', 1)[-1]]
+        return sorted(ps.get('properties', {}))
+    except Exception:
+        return None
+
+
 def observe(case):
     rpc = case['kind'] == 'rpc'
     mod = orpc if rpc else oa
@@ -243,7 +274,7 @@ def observe(case):
         try:
             doc = spec.schema(path='/api', methods_map=methods_map, **({} if rpc else {'component_name_prefix': case['global_prefix']}))
         except Exception as e:
-            gens.append({'keys': [], 'entries': [], 'names': [], 'components': [], 'refs': ['<generation raised %s>' % type(e).__name__], 'digest': 'x',
+            gens.append({'keys': [], 'entries': [], 'names': [], 'params': [], 'components': [], 'refs': ['<generation raised %s>' % type(e).__name__], 'digest': 'x',
                          'json_ok': False, 'meta_ok': False})
             heaps.append(snapshot())
             continue
@@ -267,9 +298,12 @@ def observe(case):
         else:
             keys = list(doc['paths'])
             entries = list(doc['paths'].items())
-        ent, names = [], []
+        ent, names, dparams = [], [], []
         for k, e in entries:
             names.append((k, request_method_name(e, comps, rpc)))
+            dp = documented_params(e, comps, rpc)
+            if dp is not None:
+                dparams.append((k, dp))
             direct = sorted({r.rsplit('/', 1)[-1] for r in all_refs(e, [])})
             codes = set(documented_codes(e, comps))
             if not rpc:
@@ -280,7 +314,7 @@ def observe(case):
                         codes.add(code)
             ent.append((k, sorted(codes), direct))
         refs = sorted({r.rsplit('/', 1)[-1] if r.startswith('#/components/schemas/') else r for r in all_refs(doc, [])})
-        gens.append({'keys': keys, 'entries': ent, 'names': names, 'components': sorted(comps), 'refs': refs,
+        gens.append({'keys': keys, 'entries': ent, 'names': names, 'params': dparams, 'components': sorted(comps), 'refs': refs,
                      'digest': hashlib.md5(text.encode()).hexdigest(), 'json_ok': json_ok, 'meta_ok': meta_ok})
         heaps.append(snapshot())
     # oracle: which errors the extractors report for each function
@@ -292,7 +326,11 @@ def observe(case):
             for e in (ex.extract_errors(f) or []):
                 codes.append(e.code)
         ext.append(codes)
-    return {'before': before, 'gens': gens, 'heaps': heaps, 'heap_idx': heap_idx, 'ext': ext}
+    # oracle: the functions' own parameter names (the pydantic extractor documents the signature; a docstring-first stack
+    # documents what the docstring says, which is the user's text and not judged)
+    import inspect
+    own = [sorted(inspect.signature(f).parameters) if case['stack'].startswith('pyd') else None for f in fns]
+    return {'before': before, 'gens': gens, 'heaps': heaps, 'heap_idx': heap_idx, 'ext': ext, 'own_params': own}
 
 
 def cheap(h):
@@ -303,6 +341,10 @@ def encode(case, obs):
     rpc = case['kind'] == 'rpc'
     ms = []
     triples = list(zip(case['methods'], obs['heap_idx'], obs['ext']))
+    own_params = []
+    for m, ps in zip(case['methods'], obs['own_params']):
+        if ps is not None:
+            own_params.append('(%s, %s)' % (cstr(m['name'] if rpc else '/api%s#%s' % (m['endpoint'], m['name'])), clist(cstr(x) for x in ps)))
     if not rpc:
         # the methods map groups the methods by endpoint (endpoints in order of first use), as an application does
         order = []
@@ -318,12 +360,13 @@ def encode(case, obs):
     gens = []
     for g in obs['gens']:
         ents = clist('(%s, (%s, %s))' % (cstr(k), clist(cZ(c) for c in codes), clist(cstr(r) for r in refs)) for k, codes, refs in g['entries'])
-        gens.append('{| g_keys := %s; g_entries := %s; g_names := %s; g_components := %s; g_all_refs := %s; g_digest := %s; g_json_ok := %s; g_meta_ok := %s |}'
+        gens.append('{| g_keys := %s; g_entries := %s; g_names := %s; g_params := %s; g_components := %s; g_all_refs := %s; g_digest := %s; g_json_ok := %s; g_meta_ok := %s |}'
                     % (clist(cstr(k) for k in g['keys']), ents, clist('(%s, %s)' % (cstr(k), cstr(n)) for k, n in g['names']),
+                       clist('(%s, %s)' % (cstr(k), clist(cstr(x) for x in ps)) for k, ps in g['params']),
                        clist(cstr(c) for c in g['components']), clist(cstr(r) for r in g['refs']),
                        cstr(g['digest']), cbool(g['json_ok']), cbool(g['meta_ok'])))
-    return ('{| is_rpc := %s; oas30 := %s; global_prefix := %s; heap_before := %s; methods := %s; gens := %s; heaps_after := %s |}'
-            % (cbool(rpc), cbool(case['kind'].startswith('3.0')), cstr('' if rpc else case['global_prefix']), cheap(obs['before']), clist(ms), clist(gens),
+    return ('{| is_rpc := %s; oas30 := %s; global_prefix := %s; heap_before := %s; methods := %s; own_params := %s; gens := %s; heaps_after := %s |}'
+            % (cbool(rpc), cbool(case['kind'].startswith('3.0')), cstr('' if rpc else case['global_prefix']), cheap(obs['before']), clist(ms), clist(own_params), clist(gens),
                clist(cheap(h) for h in obs['heaps'])))
 
 
